@@ -700,6 +700,7 @@ impl World for PairWorld {
             5,  // 16 epoch
             3,  // 17 addInitialLiquidity on a pool that has liquidity (whatever the state)
             4,  // 18 pause episode: pause, addInitialLiquidity while paused with liquidity, resume
+            3,  // 19 plain ESDT transfer of LP / pool tokens between accounts (no contract involved)
         ];
         let k = if step < 6 && rng.chance(1, 2) { *rng.pick(&[6usize, 7, 12, 9, 8]) } else { rng.weighted(&weights) };
         let d = if rng.chance(1, 2) { "ab" } else { "ba" };
@@ -869,6 +870,30 @@ impl World for PairWorld {
                 self.pending.push(first);
                 ('O', format!("setState {}", rng.pick(&["inactive", "inactive", "inactive", "partial"])))
             }
+            19 => {
+                // LP (mostly) or a pool token moves from one account to another; the receiver can
+                // then redeem LP it never minted.  Boundary amounts: everything, one too many, zero.
+                let tok = *rng.pick(&["LP", "LP", "LP", "A", "B"]);
+                // prefer a sender that holds LP when LP is to move
+                let holders: Vec<u64> = (1..=nu).filter(|i| !s.userlp[(*i - 1) as usize].is_zero()).collect();
+                let src = if rng.chance(1, 10) { 100 } else if tok == "LP" && !holders.is_empty() && rng.chance(5, 6) { *rng.pick(&holders) } else { u };
+                let dst = if rng.chance(1, 12) { src } else if rng.chance(1, 10) { 100 } else { rng.range(1, nu) };
+                let have = if src == 100 {
+                    match tok { "LP" => s.owner_w[2].clone(), "A" => s.owner_w[0].clone(), _ => s.owner_w[1].clone() }
+                } else {
+                    let i = (src - 1) as usize;
+                    match tok { "LP" => s.userlp[i].clone(), "A" => s.user1[i].clone(), _ => s.user2[i].clone() }
+                };
+                let amt = match rng.below(8) {
+                    0 => have.clone(),
+                    1 => &have + &one,      // one more than the wallet holds: must fail
+                    2 => BigUint::zero(),   // zero-value transfer: must fail
+                    3 => one.clone(),
+                    4 => &have / 2u32 + &one,
+                    _ => rng.big_range(&one, &(&have + &one)),
+                };
+                ('O', format!("xfer {} {} {} {}", src, dst, tok, amt))
+            }
             15 => {
                 let who = if rng.chance(1, 8) { u } else { 100 };
                 match rng.below(5) {
@@ -900,6 +925,13 @@ impl World for PairWorld {
                 }
             }
             _ => {
+                // a swap sent as a multi-transfer (two or more ESDT payments): every swap endpoint takes ONE payment, the call must
+                // fail and nothing may stay behind in the pair
+                if rng.chance(1, 3) {
+                    let kind = *rng.pick(&["swapIn", "swapOut", "swapNoFee"]);
+                    let extra = *rng.pick(&["same", "other", "lp"]);
+                    return ('O', format!("bad multiPay {} {} {} {}", u, kind, extra, rng.range(1, 1_000_000)));
+                }
                 match rng.below(5) {
                     0 => ('O', format!("bad wrongToken {} swapIn", u)),
                     1 => ('O', format!("bad sameToken {} swapIn", u)),
@@ -1340,6 +1372,27 @@ impl World for PairWorld {
                     false
                 }
             }
+            "xfer" => {
+                // plain ESDT transfer between two accounts (protocol built-in, no contract code runs):
+                // rejected when the amount is zero or the sender's wallet is short
+                let (src, dst): (u64, u64) = (w[1].parse().unwrap(), w[2].parse().unwrap());
+                let t: &[u8] = match w[3] { "LP" => LP, "A" => FIRST, "B" => SECOND, other => panic!("unknown token {other}") };
+                let amt = big(w[4]);
+                let (sa, da) = (self.user(src), self.user(dst));
+                let have = self.bal(&sa, t);
+                if amt.is_zero() || have < amt {
+                    tr.count("branch.xfer_rejected");
+                    false
+                } else {
+                    if sa != da {
+                        let hd = self.bal(&da, t);
+                        self.b.set_esdt_balance(&sa, t, &(&have - &amt));
+                        self.b.set_esdt_balance(&da, t, &(&hd + &amt));
+                    }
+                    tr.count(&format!("branch.xfer_{}", w[3]));
+                    true
+                }
+            }
             "bad" => {
                 // malformed calls: must fail and leave everything unchanged
                 who = w[2].parse().unwrap_or(1);
@@ -1358,6 +1411,43 @@ impl World for PairWorld {
                             sc.swap_tokens_fixed_input(managed_token_id!(FIRST), managed_biguint!(1u64));
                         });
                         r.result_status == 0
+                    }
+                    ("multiPay", kind) => {
+                        let extra = w.get(4).copied().unwrap_or("same");
+                        let want = BigUint::from(w.get(5).and_then(|x| x.parse::<u64>().ok()).unwrap_or(1000));
+                        // no faucet here (the model's ledger mirrors every faucet top-up): use what the caller holds
+                        let (h1, h2) = (self.bal(&c, FIRST), self.bal(&c, SECOND));
+                        let amt = want.min(&h1 / 2u32).min(h2.clone());
+                        if amt.is_zero() {
+                            false
+                        } else {
+                            let second: (&[u8], BigUint) = match extra {
+                                "other" => (SECOND, amt.clone()),
+                                "lp" => (FIRST, BigUint::one()),
+                                _ => (FIRST, amt.clone()),
+                            };
+                            let transfers = vec![
+                                TxTokenTransfer { token_identifier: FIRST.to_vec(), nonce: 0, value: amt.clone() },
+                                TxTokenTransfer { token_identifier: second.0.to_vec(), nonce: 0, value: second.1.clone() },
+                            ];
+                            let to = self.user(who).clone();
+                            let r = self.b.execute_esdt_multi_transfer(&c, &self.pair, &transfers, |sc| match kind {
+                                "swapOut" => {
+                                    let _ = sc.swap_tokens_fixed_output(managed_token_id!(SECOND), managed_biguint!(1u64));
+                                }
+                                "swapNoFee" => {
+                                    let _ = sc.swap_no_fee(managed_token_id!(SECOND), managed_address!(&to));
+                                }
+                                _ => {
+                                    let _ = sc.swap_tokens_fixed_input(managed_token_id!(SECOND), managed_biguint!(1u64));
+                                }
+                            });
+                            let ok = r.result_status == 0;
+                            if ok {
+                                tr.fail("C03", "single_payment_only", &site, &format!("{kind} accepted a multi-transfer of {} payments", transfers.len()));
+                            }
+                            ok
+                        }
                     }
                     ("lpAsInput", "addLiq") => {
                         let transfers = vec![
